@@ -83,12 +83,16 @@ def check(run, driver):
         shim = NpShim()
         np.random.seed(seed % 1000); random.seed(seed % 77)
         st_np, st_py = np.random.get_state()[1].copy(), random.getstate()
+        Gsnap = None if G is None else (list(G.nodes(data=True)), [(a, b, dict(d)) for a, b, d in G.edges(data=True)])
         with patched(S, "np", shim):
-            XY, A = S.linear_stochastic_gaussian_process(G=None if G is None else G.copy(), **cfg)
+            XY, A = S.linear_stochastic_gaussian_process(G=G, **cfg)      # the SAME graph object is handed in on every call
         globals_untouched = np.array_equal(st_np, np.random.get_state()[1]) and st_py == random.getstate()
         # same seed again, after unrelated global RNG activity
         np.random.rand(5); random.random()
-        XY2, A2 = S.linear_stochastic_gaussian_process(G=None if G is None else G.copy(), **cfg)
+        XY2, A2 = S.linear_stochastic_gaussian_process(G=G, **cfg)
+        if G is not None and Gsnap != (list(G.nodes(data=True)), [(a, b, dict(d)) for a, b, d in G.edges(data=True)]):
+            run.prop_fail("the user-supplied graph was modified by the generator (a later call with the same graph and seed no longer returns the same data)",
+                          {"generator": "linear", **cfg}, {"clause": "determinism", "generator": "linear"})
         Guse = G if G is not None else nx.erdos_renyi_graph(n, p, seed=seed, directed=True)
         nontrivial = Guse.number_of_edges() > 0 and T >= 3
         case = {"generator": "linear", **cfg, "graph": "default" if G is None else ["supplied", sorted(Guse.edges())]}
@@ -127,7 +131,7 @@ def check(run, driver):
         meta.append(("buildA", case, A)); reqs.append({"op": "build_a", "adjT": mat(AdjT), "R": mat(Rm), "rad": num(r0), "thresh": num(1e-12), "rho": num(rho)})
         # exact linearity in epsilon: second run with another epsilon
         cfg2 = dict(cfg); cfg2["epsilon"] = eps * 3.0
-        XY3, _ = S.linear_stochastic_gaussian_process(G=None if G is None else G.copy(), **cfg2)
+        XY3, _ = S.linear_stochastic_gaussian_process(G=G, **cfg2)
         if not np.allclose(XY3 / (eps * 3.0), XY / eps, rtol=1e-10, atol=1e-300):
             run.prop_fail("series is not linear in epsilon", case, {"clause": "linear_in_eps", "generator": "linear"})
     # ------------------------------------------------------------ Poisson network
@@ -135,18 +139,20 @@ def check(run, driver):
     pooled = []
     for it in range(npoi):
         n = int(rng.integers(1, 8)); T = int(rng.integers(2, 30)); p = float(rng.choice([0.0, 1.0, rng.random()]))
-        lam = float(rng.choice([0.0, 0.05, 2.0, rng.uniform(0, 5)])); c = float(rng.choice([0.0, 0.3, rng.uniform(0, 1.5)])); seed = int(rng.integers(0, 10**6))
+        lam = float(rng.choice([0.0, 0.03, 0.05, 0.09, 2.0, rng.uniform(0, 5)])); c = float(rng.choice([0.0, 0.3, rng.uniform(0, 1.5)])); seed = int(rng.integers(0, 10**6))
         G = None
         if it % 3 == 1:
             G = nx.gnp_random_graph(n, 0.4, seed=seed, directed=True)
+            if it % 2:
+                S.linear_stochastic_gaussian_process(0.5, n=n, T=3, seed=seed, G=G)   # the same graph object served another generator before
         cfg = dict(n=n, T=T, p=p, lambda_base=lam, coupling_strength=c, seed=seed)
         shim = NpShim()
         st_np, st_py = np.random.get_state()[1].copy(), random.getstate()
         with patched(S, "np", shim):
-            X, A = S.poisson_coupled_oscillators(G=None if G is None else G.copy(), **cfg)
+            X, A = S.poisson_coupled_oscillators(G=G, **cfg)
         globals_untouched = np.array_equal(st_np, np.random.get_state()[1]) and st_py == random.getstate()
         np.random.rand(3)
-        X2, A2 = S.poisson_coupled_oscillators(G=None if G is None else G.copy(), **cfg)
+        X2, A2 = S.poisson_coupled_oscillators(G=G, **cfg)
         Guse = G if G is not None else nx.erdos_renyi_graph(n, p, seed=seed, directed=True)
         case = {"generator": "poisson", **cfg, "graph": "default" if G is None else ["supplied", sorted(Guse.edges())]}
         run.case("poisson", case, Guse.number_of_edges() > 0 and T >= 3, sample=case)
